@@ -45,7 +45,7 @@ def random_regex(rng, depth=0):
             return rng.choice(["\\w", "\\W", "\\d", "\\D", "\\s", "\\S", "\\n", "\\t"])
         if k < 0.78:
             return "."
-        if d < 2:
+        if d < 1:
             return "(" + alt(d + 1) + ")"
         return rng.choice("ab")
 
@@ -54,10 +54,10 @@ def random_regex(rng, depth=0):
         return a + rng.choice(["", "", "", "?", "*", "+", "{2}", "{1,3}", "{2,}"])
 
     def seq(d):
-        return "".join(piece(d) for _ in range(rng.randint(1, 3)))
+        return "".join(piece(d) for _ in range(rng.randint(1, 3 - d)))
 
     def alt(d):
-        return "|".join(seq(d) for _ in range(rng.choice([1, 1, 2, 3])))
+        return "|".join(seq(d) for _ in range(rng.choice([1, 1, 2, 3] if d == 0 else [1, 2])))
     return alt(depth)
 
 
